@@ -227,13 +227,45 @@ def run(ck):
     pk_inter = {'kind': 'pickle', 'path': os.path.join(ck.gen, 'pickle_inter'), 'cfgs': [pk_cfg, pk_cfg2], 'runs': pk_runs,
                 'events': [['create', 0], ['create', 1], ['run', 1, 0], ['run', 0, 0], ['run', 0, 1]]}
 
-    jobs = cases + inters + [a[2] for a in alone] + [pk_alone, pk_inter]
-    ck.log('running %d scenario processes (%d cases, %d interleavings)' % (len(jobs), len(cases), len(inters)))
+    # caller-owned dicts: controller B built from the SAME description / controller_params objects used for A before, one key edited
+    def base_cfg(fam, **kw):
+        c = L.gen_config(rng, fixed_step=True, allow_random=False, family=fam)
+        c.update(levels=1, ccs=[], hooks=sorted(set(c['hooks']) - {'LogEmbeddedErrorEstimate', 'LogExtrapolationErrorEstimate', 'LogStepSize'}), fixed_step=True)
+        if isinstance(c.get('nvars'), list):
+            c['nvars'] = c['nvars'][0]
+        c.update(kw)
+        return c
+    sdc = ['sdc_test', 'sdc_heat', 'sdc_adv']
+    pairs = [(base_cfg(rng.choice(sdc), quad='GAUSS'), ['quad', 'RADAU-RIGHT']),
+             (base_cfg('imex_heat', quad='RADAU-LEFT'), ['quad', 'LOBATTO']),
+             (base_cfg(rng.choice(sdc), ccs=['EstimateExtrapolationErrorNonMPI'], mssdc_jac=False), ['drop_ccs']),
+             (base_cfg(rng.choice(sdc), ccs=['Adaptivity'], mssdc_jac=False, P=rng.choice([1, 2]), restol=-1.0, maxiter=3, fixed_step=False), ['drop_ccs']),
+             (base_cfg(rng.choice(sdc + ['imex_heat']), guess='random'), ['guess', 'spread']),
+             (base_cfg('rk'), ['sweeper', 'generic_implicit']),
+             rng.choice([(base_cfg(rng.choice(sdc + ['imex_heat']), ccs=['EstimateEmbeddedError']), ['drop_ccs']),
+                         (base_cfg('explicit', quad='GAUSS'), ['quad', 'LOBATTO']),
+                         (base_cfg(rng.choice(sdc), quad='RADAU-LEFT'), ['dt', 0.0625]),
+                         (base_cfg(rng.choice(sdc + ['sdc_vdp'])), ['maxiter', 2])])]
+    if thorough:
+        for _ in range(10):
+            pairs.append(rng.choice([(base_cfg(rng.choice(sdc + ['imex_heat', 'explicit']), quad=rng.choice(['GAUSS', 'RADAU-LEFT'])), ['quad', rng.choice(['RADAU-RIGHT', 'LOBATTO'])]),
+                                     (base_cfg(rng.choice(sdc + ['imex_heat']), ccs=[rng.choice(['EstimateEmbeddedError', 'EstimateContractionFactor', 'StoreUOld'])]), ['drop_ccs']),
+                                     (base_cfg('rk_imex'), ['sweeper', 'imex']),
+                                     (base_cfg(rng.choice(sdc), guess=rng.choice(['random', 'copy', 'zero'])), ['none'])]))
+    shared = []
+    for pi_, (ca, edit) in enumerate(pairs):
+        t0 = rng.choice(L.T0S)
+        shared.append({'kind': 'shared', 'cfg': ca, 'edit': edit, 't0': L.fhex(t0), 'Tend': L.fhex(t0 + 2 * ca['P'] * ca['dt']),
+                       'scale': rng.choice([1.0, 0.5]), 'reset_hook_list': pi_ >= 7 and pi_ % 3 == 0})
+
+    jobs = cases + inters + [a[2] for a in alone] + shared + [pk_alone, pk_inter]
+    ck.log('running %d scenario processes (%d cases, %d interleavings, %d shared-dict pairs)' % (len(jobs), len(cases), len(inters), len(shared)))
     with cf.ThreadPoolExecutor(14) as ex:
         results = list(ex.map(lambda j: work(j, 300 if thorough else 120), jobs))
     res_cases = results[:len(cases)]
     res_inter = results[len(cases):len(cases) + len(inters)]
     res_alone = results[len(cases) + len(inters):len(cases) + len(inters) + len(alone)]
+    res_shared = results[len(cases) + len(inters) + len(alone):len(cases) + len(inters) + len(alone) + len(shared)]
     res_pk = results[-2:]
     ck.log('scenarios done')
 
@@ -262,6 +294,10 @@ def run(ck):
             report('run() raised on a fresh controller: %s' % base['error'], {'kind': 'crash', 'scenario': 'base-run'}, {'input': inp, 'error': base['error']})
             continue
         ck.traces += 1
+        for ch in r.get('dict_changes', []):
+            key = ch['path'].split('/')[1] if '/' in ch['path'] else ''
+            report('constructing/running a controller changed the caller\'s %s at %s (%s, during %s)' % (ch['dict'], ch['path'] or '/', ch['change'], ch['stage']),
+                   {'kind': 'caller-dict-mutated', 'dict': ch['dict'], 'key': key}, {'input': inp, 'change': ch})
         if not r.get('u0_unchanged_after_run', True):
             report('run() modified the caller\'s u0', {'kind': 'u0-modified'}, {'input': inp})
         uses_rng = c['guess'] == 'random' and not c['sweeper'].startswith('RK:')
@@ -409,6 +445,36 @@ def run(ck):
             if extra_attrs:
                 leaks.add(tuple(extra_attrs))
     ck.cov['class_level_status_attrs_registered_by_other_controllers'] = [list(x) for x in sorted(leaks)][:6]
+
+    # ------------------------------------------------------------------ shared caller-owned dicts
+    nshared = 0
+    for sc, r in zip(shared, res_shared):
+        if 'crash' in r:
+            continue
+        ca = sc['cfg']
+        inp = {'cfg_A': ca, 'edit': sc['edit'], 'cfg_B': r.get('cfg_B'), 't0': sc['t0'], 'Tend': sc['Tend'], 'scale': sc['scale'],
+               'reset_hook_list': sc['reset_hook_list'],
+               'how': 'X, Y = description, controller_params of cfg_A; A = controller_nonMPI(P, Y, X); A.run(...); apply edit to X; '
+                      'B = controller_nonMPI(P, Y, X); compare B.run(...) with B built from brand-new dicts'}
+        ck.case(key=json.dumps(['shared', ca, sc['edit']], sort_keys=True, default=str), nontrivial=True,
+                sample={'kind': 'shared-dicts', 'family': ca['family'], 'edit': sc['edit'], 'quad_A': ca['quad'], 'ccs_A': ca['ccs']})
+        ck.traces += 1
+        for ch in r.get('dict_changes', []):
+            key = ch['path'].split('/')[1] if '/' in ch['path'] else ''
+            report('constructing/running a controller changed the caller\'s %s at %s (%s, during %s)' % (ch['dict'], ch['path'] or '/', ch['change'], ch['stage']),
+                   {'kind': 'caller-dict-mutated', 'dict': ch['dict'], 'key': key}, {'input': inp, 'change': ch})
+        bf, bs = r['B_fresh'], r['B_shared']
+        if bf['error']:
+            report('run() raised on a fresh controller: %s' % bf['error'], {'kind': 'crash', 'scenario': 'shared-B-fresh'}, {'input': inp, 'error': bf['error']})
+            continue
+        nshared += 1
+        ck.log('shared-dict pair %s ccs_A=%s quad_A=%s reset_hook_list=%s: B(shared) == B(fresh): %s' % (sc['edit'], ca['ccs'], ca['quad'], sc['reset_hook_list'], rec_equal(bf, bs)))
+        if not rec_equal(bf, bs):
+            report('controller B built from the description / controller_params objects used for controller A before (edit %s) differs from B built from '
+                   'brand-new dicts: hooks %s vs %s, do_coll_update %s' % (sc['edit'], r['B_shared_hooks'], r['B_fresh_hooks'], r.get('do_coll_update')),
+                   {'kind': 'shared-dicts', 'edit': sc['edit'][0]}, {'input': inp, 'diff': describe_diff(bs, bf), 'hooks_shared': r['B_shared_hooks'],
+                                                                      'hooks_fresh': r['B_fresh_hooks'], 'do_coll_update_fresh_shared': r.get('do_coll_update')})
+    ck.cov['shared_dict_pairs'] = nshared
 
     # ------------------------------------------------------------------ LogToPickleFile
     pa, pi = res_pk
